@@ -298,16 +298,15 @@ def unpack (w n : Nat) (bits : List Bool) : List Nat := (List.range n).map (fiel
 inductive Vlq where
   | ok (v : Nat) (rest : List Bool)
   | eof
-  | tooLong
   deriving Repr
 
 /-- the loop of `BitReader::get_vlq_int`; the accumulator is an `i64`, kept as its 64-bit
-pattern; `left` = bytes still allowed before the `MAX_VLQ_BYTE_LEN` assertion fires -/
+pattern; `left` = bytes still allowed: a varint longer than `MAX_VLQ_BYTE_LEN` bytes yields `None` -/
 def getVlqLoop : Nat → Nat → Nat → List Bool → Vlq
   | left, shift, acc, bits =>
     if bits.length < 8 then .eof else
     match left with
-    | 0 => .tooLong
+    | 0 => .eof   -- a varint longer than `MAX_VLQ_BYTE_LEN` bytes: `None`, nothing consumed
     | left + 1 =>
       let byte := ofBits (bits.take 8)
       let acc := acc ||| u64 ((byte &&& VLQ_PAYLOAD_MASK) <<< shift)
@@ -348,7 +347,6 @@ inductive Reload where
 def reload (w : Nat) (bits : List Bool) : Reload :=
   match getVlq bits with
   | .eof => .stop (alignBits bits)
-  | .tooLong => .panic
   | .ok ind rest =>
     if ind = 0 then .stop rest
     else if ind &&& DEC_INDICATOR_FLAG_MASK = 1 then
@@ -430,12 +428,10 @@ def brStep (total : Nat) (bits : List Bool) : BrOp → Option (String × List Bo
     match getVlq bits with
     | .ok v rest => some (toString v, rest)
     | .eof => some ("none", alignBits bits)
-    | .tooLong => none
   | .zigzag =>
     match getVlq bits with
     | .ok v rest => some (toString (zigzagDec (BitVec.ofNat 64 v)).toInt, rest)
     | .eof => some ("none", alignBits bits)
-    | .tooLong => none
   | .offset => some (toString ((total - bits.length + 7) / 8), bits)
 
 /-! ### DELTA_BINARY_PACKED (`DeltaBitPackEncoder` / `DeltaBitPackDecoder`)
